@@ -27,6 +27,7 @@ MANIFEST = {
             " File modes include the boundary value 0 and modes without owner read permission.",
     "note": "Not judged: files the step does not generate; new files created before a --no-overwrite conflict is detected; error wording.",
 }
+MANIFEST["text"] += ' Pre-population also covers CRLF copies of an earlier output and directories holding nothing but foreign namespace files; some histories run a program (--pp-run-program) that replaces every generated file.'
 
 SETPRIV = ["setpriv", "--bounding-set=-dac_override,-dac_read_search"]
 MODES = [0o444, 0o644, 0o600, 0o400, 0o664, 0o640, 0o000, 0o200, 0o004]   # incl. the boundary value 0 and modes without owner read
